@@ -1,18 +1,26 @@
 ------------------------------ MODULE TraceVM ------------------------------
 (* impl -> spec: lock-step validation of recorded executions of the real VM against FMLVM.
    Input (env TRACES): ndjson, one record per execution
-       [bytes, events : Seq([op, sd, top, fd, hl, ol, next, loc, new]), out, ok, diverged, fin, hasref, refout, refok]
+       [bytes, events : Seq([op, sd, top, fd, hl, ol, next, loc, new]), out, ok, diverged, fin, hasref, refout, refok, chkdepth]
    The programs are read from their bytes by the independent decoder.  Every event is one
    instruction executed by the implementation (hook after eval_opcode returned Ok); the spec
    machine takes the same step and its projected state must equal the logged fields.
    One VERDICT line per trace; a divergence ends that trace only.                        *)
-EXTENDS FMLVM, TLC, Json, IOUtils
+EXTENDS FMLVM, FMLStackDepth, TLC, Json, IOUtils
 VARIABLES vm, t, l, verdict
 
 ASSUME TLCSet(1, ndJsonDeserialize(IOEnv.TRACES))
 Rec == TLCGet(1)
 ASSUME TLCSet(2, [i \in 1..Len(Rec) |-> LET P == Decode(Rec[i].bytes) IN IF P.ok THEN Load(P) ELSE [loadable |-> FALSE, startable |-> FALSE]])
 Img(i) == TLCGet(2)[i]
+\* static depth per code address (for records that ask for it: compiler outputs), -1 = statically unreachable / not computed
+StaticDepths(P) == LET ms == MethodIdxs(P) IN
+  Flatten([j \in 1..NC(P) |-> IF P.consts[j].k = "method" THEN DepthMap(P, j - 1) ELSE <<>>])
+ASSUME TLCSet(5, [i \in 1..Len(Rec) |-> IF Rec[i].chkdepth THEN (LET P == Decode(Rec[i].bytes) IN IF P.ok /\ WellFormed(P) THEN StaticDepths(P) ELSE <<>>) ELSE <<>>])
+SDepth(i) == TLCGet(5)[i]
+\* RuntimeDepth = StaticDepth: before an instruction executes, the operand-stack depth relative to the frame's entry is the statically computed one
+DepthAgrees(i, s) == SDepth(i) = <<>> \/ s.frames = <<>> \/ s.pc < 0 \/ s.pc >= Len(SDepth(i)) \/ SDepth(i)[s.pc + 1] = -1
+                     \/ Len(s.stack) - s.frames[Len(s.frames)].base = SDepth(i)[s.pc + 1]
 
 NoTop == [k |-> "none", v |-> 0]
 ProjObj(I, o) == IF o.k = "arr" THEN [k |-> "arr", elems |-> o.elems]
@@ -44,6 +52,7 @@ Next == /\ verdict = "ok" /\ vm.st = "run"
         /\ LET I == Img(t)  s2 == VMStep(I, vm) IN
            /\ vm' = s2 /\ t' = t
            /\ IF ~StepOK(I, vm, s2) THEN verdict' = "spec-invariant" /\ l' = l
+              ELSE IF ~DepthAgrees(t, vm) THEN verdict' = "runtime-depth-differs-from-static" /\ l' = l
               ELSE IF s2.st = "fail" THEN l' = l /\ verdict' = IF s2.note = "cycle" THEN "cycle" ELSE "ok"
               ELSE IF l > Len(Rec[t].events) THEN l' = l /\ verdict' = IF Rec[t].diverged THEN "truncated" ELSE "impl-stopped"
               ELSE LET p == Project(I, vm, s2, I.code[vm.pc + 1].op)  e == Logged(Rec[t].events[l]) IN
